@@ -81,7 +81,7 @@ LST = {
 STEMS = ['m', 'm', 'comp.v2']       # a structure name with a dot in it is a legal file stem
 
 
-def run_refine(tmp, text, newtext, mode, cycles, keep=False, stem='m', lst='none'):
+def run_refine(tmp, text, newtext, mode, cycles, keep=False, stem='m', lst='none', block_saves=False):
     if not keep:
         for f in os.listdir(tmp):
             p = os.path.join(tmp, f)
@@ -94,6 +94,8 @@ def run_refine(tmp, text, newtext, mode, cycles, keep=False, stem='m', lst='none
                 os.remove(os.path.join(tmp, f))
     open(os.path.join(tmp, stem + '.hkl'), 'w').write('   0   0   0    0.00    0.00\n')
     open(os.path.join(tmp, stem + '.new'), 'wb').write(newtext.encode('utf-8'))
+    if block_saves and not os.path.exists(os.path.join(tmp, 'shxsaves')):
+        open(os.path.join(tmp, 'shxsaves'), 'w').write('a regular file where the history directory would be\n')
     if os.path.exists(os.path.join(tmp, stem + '.lstsrc')):
         os.remove(os.path.join(tmp, stem + '.lstsrc'))
     if LST[lst] is not None:
@@ -180,12 +182,15 @@ def run(ctx):
                 lst = rng.choice(sorted(LST))
                 if mode == 'ok_lst':
                     lst = 'none'        # this behaviour writes its own listing
-                r = run_refine(tmp, text, newtext, mode, cycles, stem=stem, lst=lst)
+                blocked = rng.random() < 0.2       # the history directory shxsaves cannot be created (a file of that name exists)
+                r = run_refine(tmp, text, newtext, mode, cycles, stem=stem, lst=lst, block_saves=blocked)
+                if blocked:
+                    hist['shxsaves blocked'] = hist.get('shxsaves blocked', 0) + 1
                 ev += 1
                 hist[mode] = hist.get(mode, 0) + 1
                 hist['listing ' + lst] = hist.get('listing ' + lst, 0) + 1
                 hist['stem ' + stem] = hist.get('stem ' + stem, 0) + 1
-                case = {'text': text, 'mode': mode, 'cycles': cycles, 'stem': stem, 'listing': LST[lst]}
+                case = {'text': text, 'mode': mode, 'cycles': cycles, 'stem': stem, 'listing': LST[lst], 'shxsaves_blocked': blocked}
                 failed = mode in FAILS
                 if failed:
                     if r['res'] != text:
